@@ -7,6 +7,7 @@ import (
 	"fmt"
 	"os"
 	"os/exec"
+	"sort"
 	"strings"
 	"testing"
 	"time"
@@ -107,4 +108,39 @@ func (r *Run) ReplayCold() bool {
 	}
 	r.Serial(func(w *W) { r.RunCold(w, cc.Cold, false); w.Eval(true) })
 	return true
+}
+
+// ColdMain is the body of a check package's TestColdStart: in a cold-start child it makes the scenario's call the first
+// library call of the process, then judges the battery and reports.
+func ColdMain(t *testing.T, id string, first map[string]func(), battery func(w *W)) {
+	scenario := ColdScenario()
+	if scenario == "" {
+		t.Skip("not a cold-start child")
+	}
+	r := Start(id)
+	w := r.NewW()
+	f, ok := first[scenario]
+	if !ok {
+		t.Fatalf("unknown cold scenario %q", scenario)
+	}
+	w.Guard(map[string]string{"first_call": scenario}, f)
+	battery(w)
+	ColdReport(t, w)
+}
+
+// ColdPhase runs every scenario of first (in sorted order) in its own fresh process.
+func (r *Run) ColdPhase(first map[string]func()) {
+	names := make([]string, 0, len(first))
+	for n := range first {
+		names = append(names, n)
+	}
+	sort.Strings(names)
+	r.Phase(fmt.Sprintf("cold start: %d scenarios (which library call comes first in a fresh process), each followed by a battery of ordinary cases", len(names)), func() {
+		r.Serial(func(w *W) {
+			for _, sc := range names {
+				r.RunCold(w, sc, false)
+				w.EvalRandom(Hash64("cold", sc), true)
+			}
+		})
+	})
 }
